@@ -13,7 +13,7 @@ import builtins
 import textwrap
 import z3
 
-from .universe import Universe, Unsupported, KIND, NAMES
+from .universe import Universe, Unsupported, IsinstanceRaises, KIND, NAMES
 
 
 # --------------------------------------------------------------------------- values
@@ -521,7 +521,13 @@ class Evaluator:
                 raise Unsupported('isinstance against a symbolic class')
             if fn is isinstance:
                 if isinstance(o, VObj):
-                    return VBool(U.isinstance(o.t, C.v))
+                    try:
+                        return VBool(U.isinstance(o.t, C.v))
+                    except IsinstanceRaises as e:
+                        # the real isinstance raises: so does the generated code whenever it gets here
+                        self.side('isinstance_raises', pc, node)
+                        self.c.inexact.append(('isinstance-raises', str(e)[:200]))
+                        return VBool(z3.BoolVal(False))
                 if isinstance(o, VConc):
                     return VBool(z3.BoolVal(isinstance(o.v, C.v)))
                 raise Unsupported(f'isinstance of {type(o).__name__}')
